@@ -163,6 +163,42 @@ def c18(out_tree):
             if right is not None and right.type in (";", ":") and seg != b"":
                 # `:` of a lambda / `;` of binding, with, assert, inherit
                 seen("detached-" + ("semicolon" if right.type == ";" else "colon"), {"ctx": ctx, "at": start})
+    # indentation of own-line comments: with the code line that follows them (when that line starts an expression or a
+    # binding), two columns inside the closing delimiter that follows them, at column 0 after the last token of the file
+    leaves = [n for n in cst.leaves(out_tree)]
+    code = [n for n in leaves if n.type != "comment"]
+    last_code_end = max((n.end_byte for n in code), default=0)
+    for i, n in enumerate(leaves):
+        if n.type != "comment" or _in_string_interp(n) or not src[n.start_byte : n.start_byte + 1] == b"#":
+            continue  # (block comments keep their own inner layout; only `#` comments are judged)
+        ls = src.rfind(b"\n", 0, n.start_byte) + 1
+        if src[ls : n.start_byte].strip(b" ") != b"":
+            continue  # not an own-line comment
+        cind = n.start_byte - ls
+        if n.start_byte >= last_code_end:
+            if cind != 0:
+                seen("comment-indent", {"rule": "after-last-token", "indent": cind, "comment": out_tree.s(n)[:30]})
+            continue
+        nxt = next((m for m in leaves[i + 1 :] if m.type != "comment"), None)
+        if nxt is None or _in_string_interp(nxt):
+            continue
+        nls = src.rfind(b"\n", 0, nxt.start_byte) + 1
+        if src[nls : nxt.start_byte].strip(b" ") != b"":
+            continue  # the following token does not start its line
+        if b"\n\n" in src[n.end_byte : nxt.start_byte]:
+            continue  # separated by a blank line: may belong to what precedes
+        nind = nxt.start_byte - nls
+        # the line that follows starts a binding / inherit clause of a set or let, or an element of a list
+        top = nxt
+        while top.parent is not None and top.parent.start_byte == nxt.start_byte and top.parent.type not in ("binding_set", "list_expression", "source_code"):
+            top = top.parent
+        starts_item = top.parent is not None and top.parent.type in ("binding_set", "list_expression") and top.type not in ("[", "]", "{", "}")
+        if starts_item:
+            if cind != nind:
+                seen("comment-indent", {"rule": "with-next-line", "indent": cind, "next": nind, "next_token": nxt.type, "comment": out_tree.s(n)[:30]})
+        elif nxt.type in ("}", "]") and nxt.parent is not None and nxt.parent.type in ("attrset_expression", "rec_attrset_expression", "list_expression"):
+            if cind != nind + 2:
+                seen("comment-indent", {"rule": "inside-closer", "indent": cind, "closer": nind, "closer_token": nxt.type, "comment": out_tree.s(n)[:30]})
     # indentation of closing delimiters that start a line
     for n in cst.leaves(out_tree):
         if n.type in CLOSERS and not _in_string_interp(n):
